@@ -226,6 +226,11 @@ class Answerer(object):
             return yes if p.hsa_spouse else no
         if base in ("ira_exception2_you", "ira_exception2_spouse"):
             return yes if p.f8606 else no
+        if fbase == "8606":
+            if base in ("part_1_needed", "distribution_or_roth_conversion"):
+                return yes if r.random() < 0.7 else no
+            if base in ("part_2_needed", "part_3_needed"):
+                return yes if r.random() < 0.25 else no
         if base in POSITIVE_DEFAULT:
             return yes
         if r.random() < p.yes_rate:
@@ -312,6 +317,13 @@ class Answerer(object):
             return "%.2f" % r.choice([0.0, 0.0, self.small(500), 2500.0, 50000.0, 1000000.0])
         if base == "tax_penalty":
             return "%.2f" % self.small(500)
+        if fbase == "8606":
+            # basis against value: mostly a fraction of it, sometimes more than the IRAs are still worth
+            if base == "traditional_basis":
+                return "%.2f" % r.choice([0.0, 2000.0, 10000.0, 30000.0])
+            if base == "year_end_value_non_roth":
+                return "%.2f" % r.choice([0.0, 16000.0, 44000.0, 120000.0])
+            return "%.2f" % r.choice([0.0, 0.0, 500.0, 4000.0, self.small(6000)])
         if fbase == "8889":
             if base == "archer_msa":
                 return "0.00"
